@@ -420,6 +420,9 @@ func checkC19(c *Ctx) {
 			c.Rep.Fatal(err.Error())
 			return
 		}
+		if projReplay(c, raw, "outline wsym") {
+			return
+		}
 		jb := c19Build(1, raw)
 		jb.Raw = raw
 		p := c.NewPool(1)
@@ -432,6 +435,8 @@ func checkC19(c *Ctx) {
 	scCoreKinds = `{"local","use","assign","do","lfunc","lefunc","gfunc","meth"}`
 	scopeRuns(c, p, c19Build, func(j *Job, r *proto.Result) { c19Judge(c, j, r) })
 	c19BigFiles(c, p)
+	// Project.tla: workspaces analysed as a project (entry file + what it requires), both modes
+	projectRuns(c, p, 0, "outline wsym")
 	c.poolStats(p)
 	if surveyMode {
 		sv.dump()
